@@ -162,7 +162,9 @@ func (fx *FuncCtx) assertTo(st *State, iv IfaceV, to types.Type) (Term, Val) {
 	fx.declFun("unbox_"+tname, []Sort{SIfc}, s)
 	u := app(s, "unbox_"+tname, iv.T)
 	if _, isPtr := to.Underlying().(*types.Pointer); isPtr {
-		st.assume(Implies(c, Gt(u, IntLit(0))))
+		// (non-nil; not "> 0": the address of a local variable is a negative reference, and a local
+		// boxed into an interface made the path contradictory: reported by a contract-writing agent)
+		st.assume(Implies(c, Not(Eq(u, IntLit(0)))))
 		// a pointer boxed in an interface PARAMETER refers to an object that existed at entry
 		for _, pv := range fx.params {
 			if piv, ok := pv.(IfaceV); ok && piv.T.S == iv.T.S {
